@@ -1452,7 +1452,7 @@ func main() {
 	}
 	rng := hlib.NewRng(seed, "c09")
 	h := &H{o: o, rng: rng, mon: mon, pool: newPool(hlib.NewRng(seed, "c09-keys"), 2), seen: map[int]bool{}}
-	n := hlib.N(520, 8320)
+	n := hlib.N(700, 14000)
 	for c := 0; c < n; c++ {
 		h.runCase()
 	}
